@@ -47,13 +47,22 @@ func (prm *pauseRequestMessage) handle(rm *ResponseManager) {
 }
 
 type errorRequestMessage struct {
+	// p is the peer whose message notification asks for the abort; empty when the responder's
+	// own API does
+	p         peer.ID
 	requestID graphsync.RequestID
 	err       error
 	response  chan error
 }
 
 func (erm *errorRequestMessage) handle(rm *ResponseManager) {
-	err := rm.abortRequest(rm.ctx, erm.requestID, erm.err)
+	var err error
+	if erm.p != "" && rm.ownedByOther(erm.requestID, erm.p) {
+		// a notification about a message for one peer must not reach another peer's response
+		err = graphsync.RequestNotFoundErr{}
+	} else {
+		err = rm.abortRequest(rm.ctx, erm.requestID, erm.err)
+	}
 	select {
 	case <-rm.ctx.Done():
 	case erm.response <- err:
@@ -142,12 +151,15 @@ func (psm *peerStateMessage) handle(rm *ResponseManager) {
 }
 
 type terminateRequestMessage struct {
+	p         peer.ID
 	requestID graphsync.RequestID
 	done      chan<- struct{}
 }
 
 func (trm *terminateRequestMessage) handle(rm *ResponseManager) {
-	rm.terminateRequest(trm.requestID)
+	if !rm.ownedByOther(trm.requestID, trm.p) {
+		rm.terminateRequest(trm.requestID)
+	}
 	select {
 	case <-rm.ctx.Done():
 	case trm.done <- struct{}{}:
